@@ -183,6 +183,15 @@ theorem matched_mono (env : Env) (sigs : List Sig) (c c' : Str) (hk : KeepsHits 
   rw [mem_matched] at hs ⊢
   exact ⟨hs.1, hk s hs.1 hs.2⟩
 
+theorem matched_append (env : Env) (a b : List Sig) (c : Str) :
+    matched env (a ++ b) c = matched env a c ++ matched env b c := by
+  simp [matched]
+
+theorem maxFrom_append (m : Nat) (a b : List Sig) : maxFrom m (a ++ b) = maxFrom (maxFrom m a) b := by
+  induction a generalizing m with
+  | nil => rfl
+  | cons x a ih => simp only [List.cons_append, maxFrom]; exact ih _
+
 /-- the level a scan of `sigs` assigns to `c` -/
 def scanLevel (env : Env) (sigs : List Sig) (c : Str) : Nat := maxLevel (matched env sigs c)
 
